@@ -136,6 +136,9 @@ impl Property for GramProp {
         if case.kind == "expect-open-parens" && self.id == "C14" {
             return check_c14_open_parens(case.t0(), case.n as usize);
         }
+        if case.kind == "gap" && self.id == "C13" {
+            return check_gap_after_delimiter(case);
+        }
         if case.kind != "gram" {
             return Verdict::discard("case kind not applicable to this property", case.t0().to_string());
         }
@@ -193,11 +196,11 @@ impl Property for GramProp {
         };
         vd
     }
-    fn sweeps(&self, _tier: Tier, _seed: u64) -> Vec<Box<dyn super::Sweep>> {
-        if self.id == "C12" {
-            vec![Box::new(RealWorld)]
-        } else {
-            vec![]
+    fn sweeps(&self, tier: Tier, seed: u64) -> Vec<Box<dyn super::Sweep>> {
+        match self.id {
+            "C12" => vec![Box::new(RealWorld)],
+            "C13" => vec![Box::new(GapAfterDelimiter { seed, programs: if tier == Tier::Thorough { 20_000 } else { 2_000 } })],
+            _ => vec![],
         }
     }
     fn assumptions(&self) -> Vec<String> {
@@ -405,6 +408,130 @@ impl super::Sweep for RealWorld {
             if j != chunk {
                 f(Case::text("real-world-pair", format!("{a}\n{b}")));
             }
+        }
+    }
+}
+
+// ---------------------------------------------------------------------------------------------
+// C13, last sentence, as a metamorphic relation that needs no generator knowledge: in a program
+// that lexes without error, a blank / line feed / comment inserted directly after a delimiter
+// token (',' '(' '=' on the default channel) is insignificant: the default-channel tokens keep
+// their types and texts, the inserted gap lands on the hidden / comment channel, no error appears.
+// Case kind "gap": texts = [program, inserted gap], n = byte offset of the insertion.
+
+fn default_tokens(src: &str, d: &Dump) -> Vec<(T, String)> {
+    d.toks.iter().filter(|t| t.ch == Ch::DEFAULT).map(|t| (t.t, src[t.b as usize..t.e as usize].to_string())).collect()
+}
+
+fn check_gap_after_delimiter(case: &Case) -> Verdict {
+    let (src, gap) = (case.t0(), case.t1());
+    let at = case.n as usize;
+    let mut vd = Verdict { key: format!("{}\u{241e}{}@{}", crate::core::trunc(src, 160), gap.escape_debug(), at), ..Default::default() };
+    if at > src.len() || !src.is_char_boundary(at) {
+        return Verdict::discard("insertion offset invalid", vd.key);
+    }
+    let d0 = match lex(Variant::Rel, src) {
+        Lexed::Ok(d) if !d.verif.budget_exceeded && d.errs.is_empty() => d,
+        _ => return Verdict::discard("base program does not lex cleanly (not in the domain of this relation)", vd.key),
+    };
+    let before = case.bytes.first() == Some(&1);
+    let tok = if before {
+        // the insertion point must be the start of '(' after a macro call / built-in name, or of a '=' token
+        gap_before_sites(&d0).into_iter().find(|t| t.b as usize == at)
+    } else {
+        // the insertion point must be the end of a default-channel delimiter token
+        d0.toks.iter().find(|t| t.e as usize == at && !t.empty() && t.ch == Ch::DEFAULT && matches!(t.t, T::COMMA | T::LPAREN | T::ASSIGN))
+    };
+    let Some(tok) = tok else {
+        return Verdict::discard("no delimiter token at the insertion offset", vd.key);
+    };
+    let mut m = String::with_capacity(src.len() + gap.len());
+    m.push_str(&src[..at]);
+    m.push_str(gap);
+    m.push_str(&src[at..]);
+    let d1 = match lex(Variant::Rel, &m) {
+        Lexed::Ok(d) if !d.verif.budget_exceeded => d,
+        _ => return Verdict::discard("no result (C01 territory)", vd.key),
+    };
+    vd.label(format!("gap-{}:{:?}", if before { "before" } else { "after" }, tok.t));
+    let show = format!("…{}⟦{}⟧{}…", &src[floor(src, at.saturating_sub(30))..at], gap.escape_debug(), &src[at..ceil(src, (at + 25).min(src.len()))]);
+    if let Some(e) = d1.errs.first() {
+        vd.violations.push(Violation::new("C13", "gap-after-delimiter", format!("gap-after-delimiter:error:{:?}:after={:?}", e.k, tok.t), format!("a gap inserted after a {:?} token produces {:?} at byte {}: {show}", tok.t, e.k, e.b)));
+    } else if default_tokens(src, &d0) != default_tokens(&m, &d1) {
+        let (a, b) = (default_tokens(src, &d0), default_tokens(&m, &d1));
+        let i = a.iter().zip(b.iter()).position(|(x, y)| x != y).unwrap_or(a.len().min(b.len()));
+        vd.violations.push(Violation::new("C13", "gap-after-delimiter", format!("gap-after-delimiter:tokens:after={:?}", tok.t), format!("a gap inserted after a {:?} token changes the default-channel tokens: {show}; first difference: {:?} vs {:?}", tok.t, a.get(i), b.get(i))));
+    }
+    vd.nontrivial = d0.toks.iter().any(|t| super::is_macro_token(t.t));
+    vd
+}
+
+/// '(' directly after a macro call / argument-taking built-in / %while / %until name, and '=' tokens
+/// directly after a name-like token: a gap before them is insignificant
+fn gap_before_sites(d: &Dump) -> Vec<&crate::api::Tok> {
+    let mut v = vec![];
+    for (i, t) in d.toks.iter().enumerate() {
+        if t.empty() || t.ch != Ch::DEFAULT || i == 0 {
+            continue;
+        }
+        let p = &d.toks[i - 1];
+        if p.e != t.b || p.empty() {
+            continue;
+        }
+        let ok = match t.t {
+            T::LPAREN => p.t == T::MacroIdentifier || crate::oracle::kw::is_builtin_with_args(p.t) && !matches!(p.t, T::KwmStr | T::KwmNrStr) || matches!(p.t, T::KwmWhile | T::KwmUntil),
+            T::ASSIGN => matches!(p.t, T::MacroString | T::MacroVarTerm | T::Identifier) && p.ch == Ch::DEFAULT,
+            _ => false,
+        };
+        if ok {
+            v.push(t);
+        }
+    }
+    v
+}
+
+pub struct GapAfterDelimiter {
+    pub seed: u64,
+    pub programs: usize,
+}
+impl super::Sweep for GapAfterDelimiter {
+    fn name(&self) -> String {
+        format!("a blank / line feed / comment inserted after every ',' '(' '=' delimiter token of {} construct-grammar programs and of the statement-complete real-world programs (up to 150 delimiters each)", self.programs)
+    }
+    fn chunks(&self) -> usize {
+        self.programs + real_programs().len()
+    }
+    fn run_chunk(&self, chunk: usize, f: &mut dyn FnMut(Case)) {
+        let mut m = crate::su::Mix::new(crate::su::mix2(self.seed ^ 0x6A9, chunk as u64));
+        let src = if chunk < self.programs {
+            let len = 8 + m.below(160);
+            let bytes = m.bytes(len);
+            build(&bytes).out
+        } else {
+            real_programs()[chunk - self.programs].1.clone()
+        };
+        let d = match lex(Variant::Rel, &src) {
+            Lexed::Ok(d) if d.errs.is_empty() => d,
+            _ => return,
+        };
+        let ends: Vec<usize> = d.toks.iter().filter(|t| !t.empty() && t.ch == Ch::DEFAULT && matches!(t.t, T::COMMA | T::LPAREN | T::ASSIGN)).map(|t| t.e as usize).collect();
+        let step = (ends.len() / 150).max(1);
+        for (k, at) in ends.iter().enumerate() {
+            if k % step != 0 {
+                continue;
+            }
+            let gap = [" ", "\n", "  ", "/*c,)=*/", " /*c*/ "][m.below(5)];
+            f(Case { kind: "gap".into(), texts: vec![src.clone(), gap.to_string()], bytes: vec![], n: *at as u64, gen: "gap-after-delimiter" });
+        }
+        let starts: Vec<usize> = gap_before_sites(&d).iter().map(|t| t.b as usize).collect();
+        let step = (starts.len() / 100).max(1);
+        for (k, at) in starts.iter().enumerate() {
+            if k % step != 0 {
+                continue;
+            }
+            // (only whitespace before a delimiter: a comment does not end a name expression)
+            let gap = [" ", "\n", "  ", "\t"][m.below(4)];
+            f(Case { kind: "gap".into(), texts: vec![src.clone(), gap.to_string()], bytes: vec![1], n: *at as u64, gen: "gap-before-delimiter" });
         }
     }
 }
